@@ -387,6 +387,14 @@ fn cli_one(ctx: &Ctx, st: &mut Stats, text: &str, channel: u8, tag: &str) {
         }
     }
     let mut channel = channel;
+    // 4 / 5: the options come from an argument file (`rsbdd @args`, one argument per line):
+    // `--evaluate=TEXT` on one line resp. `-e` and TEXT on two lines — only for one-line texts
+    if channel >= 4 && (text.contains('\n') || text.contains('\r') || text.is_empty() || text.starts_with('@')) {
+        channel = 1;
+    }
+    if channel == 5 && text.starts_with('-') {
+        channel = 4; // (a separate argument that starts with a dash is an option to the argument parser)
+    }
     if text.contains('\0') || (channel == 0 && text.starts_with('-')) {
         channel = if text.contains('\0') { 2 } else { 1 };
     }
@@ -405,16 +413,23 @@ fn cli_one(ctx: &Ctx, st: &mut Stats, text: &str, channel: u8, tag: &str) {
             let _ = std::fs::write(dir.join("in.txt"), &text);
             args.push("in.txt".into());
         }
+        4 | 5 => {
+            let lines = if channel == 4 { format!("--evaluate={}\n-p\ntree.dot\n", text) } else { format!("-e\n{}\n-p\ntree.dot\n", text) };
+            let _ = std::fs::write(dir.join("args file"), lines);
+            args.push("@args file".into());
+        }
         _ => stdin = Some(text.clone().into_bytes()),
     }
-    args.push("-p".into());
-    args.push("tree.dot".into());
+    if channel < 4 {
+        args.push("-p".into());
+        args.push("tree.dot".into());
+    }
     st.evals += 1;
     st.bump("cli_texts");
-    st.bump(["cli_texts_by_-e", "cli_texts_by_--evaluate=", "cli_texts_by_file", "cli_texts_by_stdin"][channel as usize]);
+    st.bump(["cli_texts_by_-e", "cli_texts_by_--evaluate=", "cli_texts_by_file", "cli_texts_by_stdin", "cli_texts_by_argument_file(--evaluate=TEXT)", "cli_texts_by_argument_file(-e, TEXT)"][channel as usize]);
     let out = cli::run(&ctx.bin("rsbdd"), &args, stdin.as_deref(), Some(&dir), Some((20_000_000, 2_000)), std::time::Duration::from_secs(60));
     let case = || json!({"kind": "cli", "text": text, "channel": channel});
-    let how = ["-e <text>", "--evaluate=<text>", "<file>", "standard input"][channel as usize];
+    let how = ["-e <text>", "--evaluate=<text>", "<file>", "standard input", "@argfile holding --evaluate=<text>", "@argfile holding -e and <text>"][channel as usize];
     if out.timed_out || out.budget_exceeded() {
         st.bump("cli_out_of_budget(inconclusive case)");
     } else {
@@ -465,7 +480,7 @@ fn cli_job(ctx: &Ctx, job: usize, iters: u64) -> Stats {
                 }
             }
         };
-        let channel = rng.below(4) as u8;
+        let channel = rng.below(6) as u8;
         cli_one(ctx, &mut st, &text, channel, &format!("{}-{}", job, it));
     }
     st
@@ -532,7 +547,7 @@ pub fn run(ctx: &Ctx) -> (Stats, Spec) {
         check_text(&mut st, t, true, "negation-and-edge-cases");
     }
     let spec = Spec {
-        rule: "exhaustive token sequences (full 33-kind alphabet to length 4 [quick] / 5 [thorough]; reduced alphabet at length 5 / 6), exhaustive character strings over 16 characters to length 5 / 6, random well-formed texts with every alias spelling and their token-level mutations (delete / duplicate / swap / replace / insert / drop a bracket / truncate), splices, soups, a curated Unicode set, and texts of 8-60 KiB (padding by comments / whitespace / separator lines before, inside and after a formula), and texts of 4-192 KiB in which a 2-, 3- or 4-byte character of a name lies across a block boundary (4 KiB .. 192 KiB); inputs that are not valid UTF-8 (bad bytes on the first line, on a later line after a complete formula, inside a line: rejected, or read as the lossily decoded text); plus the TOOL as reader: random, mutated and quote-/prime-/bracket-wrapped texts given to rsbdd by -e, --evaluate=, file or standard input, its -p parse-tree export read back and compared with the reference tree (non-sentences must make it exit non-zero). distinct = text; non-trivial = >= 3 tokens and either accepted, or rejected by the reference only after >= 2 tokens were consumed.".into(),
+        rule: "exhaustive token sequences (full 33-kind alphabet to length 4 [quick] / 5 [thorough]; reduced alphabet at length 5 / 6), exhaustive character strings over 16 characters to length 5 / 6, random well-formed texts with every alias spelling and their token-level mutations (delete / duplicate / swap / replace / insert / drop a bracket / truncate), splices, soups, a curated Unicode set, and texts of 8-60 KiB (padding by comments / whitespace / separator lines before, inside and after a formula), and texts of 4-192 KiB in which a 2-, 3- or 4-byte character of a name lies across a block boundary (4 KiB .. 192 KiB); inputs that are not valid UTF-8 (bad bytes on the first line, on a later line after a complete formula, inside a line: rejected, or read as the lossily decoded text); plus the TOOL as reader: random, mutated and quote-/prime-/bracket-wrapped texts given to rsbdd by -e, --evaluate=, file, standard input or an @argument file, its -p parse-tree export read back and compared with the reference tree (non-sentences must make it exit non-zero). distinct = text; non-trivial = >= 3 tokens and either accepted, or rejected by the reference only after >= 2 tokens were consumed.".into(),
         assumptions: vec![
             "the reference grammar is DESIGN.md 2.1/2.2 (written from README + property statement); `\\w` / `\\d` are the regex crate's Unicode classes".into(),
             "a digit run that is not an ASCII number fitting the machine integer must be rejected".into(),
